@@ -121,6 +121,10 @@ def untag_json(v, ascii=False):
     raise TypeError(v)
 
 
-def stage_src(r):
-    return (DECLS + "stage S(\n" + "".join("    in  %s %s,\n" % (type_str(p["t"]), p["n"]) for p in r["params"])
+def stage_src(r, bare=False):
+    """bare: a file that declares no struct type, where no parameter needs one"""
+    decls = DECLS
+    if bare and not any(p["t"]["b"] in ("S1", "S2", "S3", "S4", "S5") for p in r["params"]):
+        decls = "filetype txt;\n\n"
+    return (decls + "stage S(\n" + "".join("    in  %s %s,\n" % (type_str(p["t"]), p["n"]) for p in r["params"])
             + "    out int y,\n    src py \"s\",\n)\n")
